@@ -73,7 +73,26 @@ def flux_case(draw, max_n=8, reactive_only=False):
             "sources": src, "sinks": snk,
             "src_form": draw(st.sampled_from(R.SET_FORMS)), "snk_form": draw(st.sampled_from(R.SET_FORMS)),
             "pops": draw(st.sampled_from(["none", "given"]))}
-    variant = draw(st.sampled_from(["plain", "plain", "plain", "float32_dyadic", "negative_ids"]))
+    variant = draw(st.sampled_from(["plain", "plain", "plain", "float32_dyadic", "negative_ids", "near_uniform", "thin_bridge"]))
+    if variant == "near_uniform" and ch["E"] is None:
+        # a reversible chain whose stationary distribution is uniform to within ~1e-6 but NOT exactly: symmetric circulant
+        # weights of order 1e6..3e7 plus small symmetric integer noise (row sums differ in the 7th digit)
+        n_ = ch["n"]
+        c_ = [draw(st.integers(1, 30)) for _ in range(n_ // 2 + 1)]
+        noise = [[draw(st.integers(0, 40)) for _ in range(n_)] for _ in range(n_)]
+        M = [[c_[min(abs(i - j), n_ - abs(i - j))] * 10 ** 6 + (noise[min(i, j)][max(i, j)] if i != j else 0) for j in range(n_)]
+             for i in range(n_)]
+        ch["M"] = M
+        ch["kind"] = "rev_dense"
+        case["pops"] = "none"
+    elif variant == "thin_bridge" and ch["E"] is None:
+        # almost all of the population sits in the sources and sinks (heavy self-counts there): the total reactive weight
+        # is ~1e-9 of the whole - the reactive populations are still a probability vector
+        M = np.array(ch["M"], dtype=np.int64)
+        for s_ in list(src) + list(snk):
+            M[s_, s_] += 10 ** 10
+        ch["M"] = M.tolist()
+        case["pops"] = "given"
     if variant == "float32_dyadic" and ch["E"] is None:
         # a float32 transition matrix whose entries are exact in float32: symmetric integer weights with the diagonal
         # chosen so that every row sums to the same power of two (reversible, uniform populations).  Everything the
@@ -160,7 +179,8 @@ class Ctx:
               "n_sources=%s" % min(len(self.src), 3), "n_sinks=%s" % min(len(self.snk), 3),
               "intermediates=%s" % min(len(self.inter), 3), "no_reactive_state=%s" % self.no_reactive_state,
               "src_form=" + c["src_form"], "snk_form=" + c["snk_form"],
-              "t_dtype=" + c.get("t_dtype", "float64"), "negative_ids=%s" % bool(c.get("neg_ids"))]
+              "t_dtype=" + c.get("t_dtype", "float64"), "negative_ids=%s" % bool(c.get("neg_ids")),
+              "heavy_ends=%s" % bool(np.max(np.diag(np.array(ch["M"], dtype=float))) >= 1e10)]
         if "container" in c:
             cl.append("container=" + c["container"])
         return Info(nt, cl + list(extra))
